@@ -147,7 +147,7 @@ def run(ctx):
     res.assumptions = ["client-side URL normalisation by real browsers is not modelled", "names containing '..', './' etc. are C12's subject and not in this tree"]
     parse_lines, parse_checks = [], []
     quote_lines, quote_checks = [], []
-    for listname, ctl in (("shipped", False), ("shipped", True), ("full", False), ("rootmap", False), ("warm", False)):
+    for listname, ctl in (("shipped", False), ("shipped", True), ("full", False), ("rootmap", False), ("warm", False), ("wapdir", False)):
         tree = pyg.Tree()
         try:
             build_tree(tree, listname == "full", ctl)
@@ -160,6 +160,13 @@ def run(ctx):
                 tree.write("gophermap", b"iWelcome\n0About\tabout.txt\n1Docs\tdocs\n0README\n1Mail\t/mail\n0Deep\tdocs/sub/deep.txt\n1Sub map\tmapped\n")
                 tree.write("mapped/gophermap", b"0Inner\tinner.txt\n1Up\t/\n0Abs\t/about.txt\n")
                 tree.write("mapped/inner.txt", b"inner\n")
+            if listname == "wapdir":
+                # content whose names start like the WAP prefix: reachable through WAP itself (prefix + selector), Gopher and Gemini
+                # (over HTTP the path /wap/... is WAP's own namespace, a matter of configuration)
+                tree.write("wap/phones.txt", b"phones\n")
+                tree.write("wap/models/nokia.txt", b"3310\n")
+                tree.write("wap/wap/deeper.txt", b"deeper\n")
+                tree.write("wapiti/x.txt", b"x\n")
             if listname == "warm":
                 # every real directory has been requested directly before (caches written, Maildir sub-directories listed as plain directories)
                 kw = {}
@@ -176,6 +183,8 @@ def run(ctx):
                 if listname == "full" and proto in ("https",):
                     continue
                 if listname in ("rootmap", "warm") and proto not in ("gopher", "http", "gemini"):
+                    continue
+                if listname == "wapdir" and proto not in ("gopher", "wap", "gemini"):
                     continue
                 if ctl != (proto not in ("gopher", "gopherp")) and listname == "shipped":
                     continue
@@ -275,7 +284,10 @@ def run(ctx):
     res.sample({"protocol": "http", "followed": "GET /sp%20ace.txt HTTP/1.0", "handler_saw": "/sp ace.txt"})
     if parse_checks:
         res.sample({"followed": parse_checks[len(parse_checks) // 2][0], "handler_saw": parse_checks[len(parse_checks) // 2][1]})
-    res.degraded = list(pyg.degraded)
+    # the whole-site model (tree -> resolution -> dispatch -> entries -> rendering) against the real server
+    import sitecorr
+    sitecorr.compare(ctx, res, ctx.n(5, 60), "C05")
+    res.degraded = list(pyg.degraded) + [d for d in res.degraded if d not in pyg.degraded]
     return res
 
 
